@@ -131,6 +131,34 @@ func randSquareCase(c *Ctx, r *Rng, ordered, tight bool) sqCase {
 		}
 		c.count("many_blobs")
 	}
+	if tight && !ordered && r.Intn(6) == 0 {
+		// refused appends whose wrapped PFB (or ordinary tx) would still fit the open compact share:
+		// small-blob transactions with 60..300-byte inner txs, interleaved with transactions refused only
+		// because of their blobs (far larger than the square) - bytes wrongly left behind by a refusal
+		// surface when a later accepted append crosses a compact share boundary
+		max = pick(r, []int{4, 8})
+		huge := max * max * 482
+		var l []genTx
+		n := 4 + r.Intn(6)
+		for i := 0; i < n; i++ {
+			inner := r.Bytes(60 + r.Intn(240))
+			if r.Bool(35) {
+				b := randBlob(r, nss, 100)
+				b.data = r.Bytes(huge + r.Intn(500))
+				bl := []genBlob{b}
+				l = append(l, genTx{raw: blobTxWithInner(inner, bl), blobs: bl})
+			} else if r.Bool(25) {
+				l = append(l, genTx{raw: r.Bytes(40 + r.Intn(200))})
+			} else {
+				b := randBlob(r, nss, 100)
+				b.data = r.Bytes(1 + r.Intn(300))
+				bl := []genBlob{b}
+				l = append(l, genTx{raw: blobTxWithInner(inner, bl), blobs: bl})
+			}
+		}
+		txs = l
+		c.count("refused_but_fits_open_share")
+	}
 	c.count(fmt.Sprintf("max_%d", max))
 	c.count(fmt.Sprintf("thr_%d", thr))
 	c.count(fmt.Sprintf("ntx_%d", min(len(txs)/3*3, 12)))
